@@ -5,6 +5,7 @@
   indexes + row table + column list, and every operation of the property's quantifier).
   Helper lemmas: `Umya/Lemmas/{Sheet,Coherent,Coherent2,Coherent3,Observers}.lean`.
 -/
+import Umya.Lemmas.ShiftGen
 import Umya.Lemmas.Observers
 namespace Umya.Thm.C10
 open Umya.Sheet Umya.Coord
@@ -89,5 +90,22 @@ example : ∃ s', run {} [.setVal 2 3 7, .setCell 5 1 4 2, .insRows 2 2, .remCol
     ∧ s'.cells.length = 2 := by
   refine ⟨_, rfl, ?_⟩
   decide
+
+/-- (T) The scalar shift kernels as they stand in the Rust source NOW (regenerated by the translator
+    on this run) are the ones the model uses: every theorem of this file that mentions
+    `adjIns / adjRem / isRem / adjInsV / adjRemV / isRemV` is a theorem about the current source's kernels. -/
+theorem C10_kernels_match_source (n r o : Nat) :
+    Umya.Gen.adjustment_insert_coordinate n r o = .ok (Umya.Sheet.adjIns n r o) ∧
+    Umya.Gen.adjustment_remove_coordinate n r o = Umya.Sheet.adjRem n r o ∧
+    Umya.Gen.is_remove_coordinate n r o = .ok (Umya.Sheet.isRem n r o) ∧
+    Umya.Gen.row_adjustment_insert_value n r o = .ok (Umya.Sheet.adjInsV n r o) ∧
+    Umya.Gen.row_adjustment_remove_value n r o = Umya.Sheet.adjRemV n r o ∧
+    Umya.Gen.row_is_remove_value n r o = Umya.Sheet.isRemV n r o ∧
+    Umya.Gen.column_adjustment_insert_value n r o = .ok (Umya.Sheet.adjInsV n r o) ∧
+    Umya.Gen.column_adjustment_remove_value n r o = Umya.Sheet.adjRemV n r o ∧
+    Umya.Gen.column_is_remove_value n r o = Umya.Sheet.isRemV n r o :=
+  ⟨Umya.Gen.gen_insert n r o, Umya.Gen.gen_remove n r o, Umya.Gen.gen_is_remove n r o,
+   Umya.Gen.gen_row_insert n r o, Umya.Gen.gen_row_remove n r o, Umya.Gen.gen_row_is_remove n r o,
+   Umya.Gen.gen_col_insert n r o, Umya.Gen.gen_col_remove n r o, Umya.Gen.gen_col_is_remove n r o⟩
 
 end Umya.Thm.C10
